@@ -135,6 +135,14 @@ type runnablePipeline struct {
 	t                *tomb.Tomb
 	backoff          *backoff.Backoff
 	recoveryAttempts *atomic.Int64
+
+	// intentionalStop is set when a user asked for a graceful stop of this
+	// run. If the run then ends with a transient (non-fatal) error, the
+	// cleanup goroutine finalizes it as StatusUserStopped instead of handing
+	// it to recoverPipeline: a pipeline the user stopped is never restarted
+	// automatically (same as the arch-v2 engine). It is per run: a restarted
+	// run gets a fresh runnablePipeline.
+	intentionalStop atomic.Bool
 }
 
 // ConnectorService can fetch and create a connector instance, and report when
@@ -328,7 +336,13 @@ func (s *Service) Stop(ctx context.Context, pipelineID string, force bool) error
 
 	switch force {
 	case false:
-		return s.stopGraceful(ctx, rp, nil)
+		rp.intentionalStop.Store(true)
+		err := s.stopGraceful(ctx, rp, nil)
+		if err != nil {
+			// the stop request did not go through, the run keeps going
+			rp.intentionalStop.Store(false)
+		}
+		return err
 	case true:
 		return s.stopForceful(ctx, rp)
 	}
@@ -971,6 +985,12 @@ func (s *Service) runPipeline(ctx context.Context, rp *runnablePipeline) error {
 				// we use %+v to get the stack trace too
 				if err := s.pipelines.UpdateStatus(ctx, rp.pipeline.ID, pipeline.StatusDegraded, fmt.Sprintf("%+v", err)); err != nil {
 					return err
+				}
+			} else if rp.intentionalStop.Load() {
+				// The user asked this run to stop and it ended with a
+				// transient error while stopping: do not restart it.
+				if updateErr := s.pipelines.UpdateStatus(ctx, rp.pipeline.ID, pipeline.StatusUserStopped, ""); updateErr != nil {
+					return updateErr
 				}
 			} else {
 				// try to recover the pipeline
